@@ -6,7 +6,8 @@
    This file contains only statements closed by `exact` and their Print Assumptions. *)
 From AV Require Import Base Itertools ItertoolsProofs ItertoolsTee ItertoolsAlias.
 
-Theorem C08_accumulate_checkpoints : forall (f : Z -> Z -> Z) (initial : option Z) (s : src),
+Theorem C08_accumulate_checkpoints : forall (f : Z -> Z -> option Z) (initial : option Z) (s : src),
+  snd (accumulate_model f initial s) = None ->
   is_sync (fst s) = true \/ yields (fst (accumulate_model f initial s)) = [] ->
   passes_ck (fst (accumulate_model f initial s)) = true /\
   check_before_first_yield_value (fst (accumulate_model f initial s)) = true.
@@ -145,7 +146,7 @@ Print Assumptions C08_tee_next_checkpoints.
 (* functools.reduce after the F22 fix, at full strength (every callback - also one that never yields -, every
    source kind, every initial value): the cancellation check is the very first event, an error-free call yields
    to the event loop, and in an already cancelled scope nothing is consumed and the callback is not called *)
-Theorem C08_reduce_checkpoints : forall (f : Z -> Z -> Z) (initial : option Z) (s : src),
+Theorem C08_reduce_checkpoints : forall (f : Z -> Z -> option Z) (initial : option Z) (s : src),
   hd_error (fst (reduce_model f initial s false)) = Some CkIf /\
   (snd (reduce_model f initial s false) = None ->
    passes_ck (fst (reduce_model f initial s false)) = true /\
@@ -153,7 +154,7 @@ Theorem C08_reduce_checkpoints : forall (f : Z -> Z -> Z) (initial : option Z) (
 Proof. exact reduce_checkpoints. Qed.
 Print Assumptions C08_reduce_checkpoints.
 
-Theorem C08_reduce_cancelled : forall (f : Z -> Z -> Z) (initial : option Z) (s : src),
+Theorem C08_reduce_cancelled : forall (f : Z -> Z -> option Z) (initial : option Z) (s : src),
   reduce_model f initial s true = ([CkIf], Some Cancelled) /\
   has_next (fst (reduce_model f initial s true)) = false /\ has_call (fst (reduce_model f initial s true)) = false.
 Proof. exact reduce_cancelled. Qed.
